@@ -33,6 +33,25 @@ func TestMain(m *testing.M) { pbt.Main(m) }
 
 func genCase(t *rapid.T) zipgen.ListCase {
 	c := zipgen.GenList(t, true)
+	if gen.Chance(t, 5, "dupkinds") {
+		// the same path listed twice with different kinds (the verdict of the file check depends on which comes
+		// first), in a list long enough for sorting algorithms to leave their small-input path (12, 16, 32 elements)
+		name := []string{"dup/x.go", "a/b/dup.txt", "dup", "sub/LICENSE"}[gen.Uniform(t, 4, "dupname")]
+		kinds := []string{"symlink", "irregular", "dir", "device", "pipe"}
+		first := zipgen.Entry{Name: name, Mode: "file", Content: []byte("regular\n"), Size: -1}
+		second := zipgen.Entry{Name: name, Mode: kinds[gen.Uniform(t, len(kinds), "dupkind")], Size: -1}
+		if rapid.Bool().Draw(t, "dupswap") {
+			first, second = second, first
+		}
+		fill := []int{11, 12, 13, 17, 30, 40}[gen.Uniform(t, 6, "dupfill")] - len(c.Entries)
+		for i := 0; i < fill; i++ {
+			c.Entries = append(c.Entries, zipgen.Entry{Name: fmt.Sprintf("fill/f%02d.go", i), Mode: "file", Content: []byte("package fill\n"), Size: -1})
+		}
+		a := gen.Uniform(t, len(c.Entries)+1, "dupat1")
+		c.Entries = append(c.Entries[:a:a], append([]zipgen.Entry{first}, c.Entries[a:]...)...)
+		b := a + 1 + gen.Uniform(t, len(c.Entries)-a, "dupat2")
+		c.Entries = append(c.Entries[:b:b], append([]zipgen.Entry{second}, c.Entries[b:]...)...)
+	}
 	if gen.Chance(t, 3, "bigfile") {
 		// one large file (beyond copy buffers of 32 KiB ... 1 MiB), usually highly compressible
 		n := []int{32769, 65537, 131073, 262144, 262145, 300000, 700000, 1 << 20}[gen.Uniform(t, 8, "bigsize")]
@@ -93,6 +112,11 @@ func checkFilesVsModel(c zipgen.ListCase) (modzip.CheckedFiles, zipref.Report, *
 		ms = append(ms, e.Member())
 	}
 	cf, err := modzip.CheckFiles(files)
+	for i, f := range files {
+		if f.Path() != c.Entries[i].Name {
+			return cf, zipref.Report{}, pbt.Failf("checkfiles-reorders-files", "CheckFiles changed the caller's file list: position %d was %q, is %q", i, c.Entries[i].Name, f.Path())
+		}
+	}
 	want := zipref.CheckFiles(ms, c.Post124())
 	if fmt.Sprint(sortedCopy(cf.Valid)) != fmt.Sprint(sortedCopy(want.Valid)) {
 		return cf, want, pbt.Failf("valid-set", "CheckFiles.Valid = %q, rules say %q", cf.Valid, want.Valid)
